@@ -58,6 +58,20 @@ CHECKS = [
      BASE_NOTE + "scipy.stats.norm.isf and np.sqrt are oracles (isf antitone is a hypothesis of nesting); the harness "
      "checks that the implementation asks isf for alpha/2; float sums/quotients compared with tolerance 1e-9 / 1e-12.",
      "Lean 4 proof about a hand-written model + differential correspondence check", "DESIGN.md §5 C04"),
+ chk("C13",
+     "The Lean model of utils.bootstrap_ci IS the documented formula (C13_quantile_levels, C13_bc_levels, C13_bca_levels: "
+     "NumPy's linear nanquantile at alpha/2, 1-alpha/2; BC shift 2*z0; BCa acceleration term). Theorems derive, for ALL "
+     "replicate lists, estimates and alpha: limits ordered (quantile, BC; BCa on the one-sided branch of its pole), "
+     "within the range of the finite replicates and NaN exactly when there is none (C13_in_range), unchanged by NaN "
+     "replicates and reordering (C13_invariant), equivariant under increasing affine maps incl. BCa (C13_affine), nested "
+     "in alpha (quantile, BC). Tied to /repo by feeding the model the values of the real scipy.stats.norm.ppf/cdf calls "
+     "(recorded; missing queries are answered by the real scipy) and comparing the limits; the derived clauses are also "
+     "evaluated on the implementation's outputs and on pairs of real runs (shuffled+NaN-padded, affine image, second alpha, "
+     "per component, alpha arrays).",
+     BASE_NOTE + "scipy.stats.norm.ppf/cdf and x**1.5 are oracles (monotone cdf/ppf is a hypothesis of the ordering/nesting "
+     "theorems; a lawful instance is exhibited); np.nanquantile(method='linear') by its documented formula; BCa nesting is "
+     "evaluated, not proved; all-NaN components are outside the property.",
+     "Lean 4 proof about a hand-written model + differential correspondence check", "DESIGN.md §5 C13"),
 ]
 
 ALL = [f"C{i:02d}" for i in range(1, 21)]
